@@ -187,7 +187,7 @@ def setup_clauses(task):
 TIME_MOVERS = {"shift", "tshift", "reindex", "reindex_like", "ffill", "bfill", "pad", "backfill", "fillna", "interpolate", "resample", "asfreq", "align", "rolling", "expanding", "ewm",
                "diff", "pct_change", "cumsum", "cumprod", "cummax", "cummin", "combine_first", "merge", "merge_asof", "join", "update", "where", "mask", "replace", "sort_index", "sort_values",
                "truncate", "last", "first", "tail", "head", "searchsorted", "asof", "set_index", "reset_index", "iloc", "loc", "at", "iat", "mean", "sum", "max", "min"}
-INSTALLER_OK = {"DataFrame", "Series", "concat", "copy", "equals", "DateOffset", "any", "duplicated", "tolist", "setup", "adjust", "_process_data", "set_commissions", "use_integer_positions", "pop", "get", "items", "keys", "values", "append", "format"}
+INSTALLER_OK = {"DataFrame", "Series", "concat", "copy", "equals", "DateOffset", "any", "duplicated", "tolist", "setup", "adjust", "_process_data", "set_commissions", "use_integer_positions", "_set_root", "pop", "get", "items", "keys", "values", "append", "format"}
 INSTALLERS = ("bt.core.StrategyBase.setup", "bt.core.SecurityBase.setup", "bt.core.CouponPayingSecurity.setup", "bt.backtest.Backtest._process_data", "bt.backtest.Backtest.__init__")
 
 
